@@ -58,9 +58,21 @@ def call_builtin(ex: Any, fv: VFunc, args: List[V], kwargs: Dict[str, V], st: St
         yield VTuple(items), st
         return
     if f is range:
-        vals = [ex.concrete(a) for a in args]
-        yield VPy(range(*vals)), st
-        return
+        if all(ex.is_concrete(a) for a in args):
+            vals = [ex.concrete(a) for a in args]
+            yield VPy(range(*vals)), st
+            return
+        if len(args) in (1, 2):
+            # a range with symbolic bounds: only its *set of members* is modelled ({x | lo <= x < hi}); iterating it is outside the
+            # subset (the value is a set: a `for` over it is rejected)
+            lo = z3.IntVal(0) if len(args) == 1 else _i(ex.narrow(args[0], st))
+            hi = _i(ex.narrow(args[-1], st))
+            e = z3.Int(fresh_name("re"))
+            rs = VSet(T.Int, z3.Lambda([e], z3.And(e >= lo, e < hi)))
+            rs.is_range = True
+            yield rs, st
+            return
+        raise Unsupported("range() with a symbolic step")
     if f is max or f is min:
         default = kwargs.get("default")
         if len(args) == 1:
